@@ -52,18 +52,23 @@ class Runner:
         self.next_id = 0
         self.idmap = {}
 
-    def world(self, node, pm="id"):
-        return ei.EprWorld(self.m, self.classes, node, pm)
+    def world(self, node, pm="id", log=False):
+        logdir = None
+        if log:
+            logdir = os.path.join(self.ctx.build, "instr_logs")
+            os.makedirs(logdir, exist_ok=True)
+        return ei.EprWorld(self.m, self.classes, node, pm, instr_log_dir=logdir)
 
     def node(self, path, ev, fault, ob):
         self.next_id += 1
         self.idmap[self.next_id] = list(path)
         return dict(id=self.next_id, ev=ev, fault=fault, obs=ob, kids=[])
 
-    def run(self, node, events, oracle=True, want_tree=True, pm="id"):
-        """returns (root, failures [(step, text)], faults list)"""
+    def run(self, node, events, oracle=True, want_tree=True, pm="id", log=False):
+        """returns (root, failures [(step, text)], faults list).  log: run the controller with an
+        instruction logger attached (the bookkeeping must be the same with and without)"""
         pm = from_pm(pm)
-        w = self.world(node, pm)
+        w = self.world(node, pm, log)
         ref = ei.FifoRef(node, pm) if oracle else None
         root = cur = None
         fails, faults = [], []
@@ -119,6 +124,18 @@ class Gen:
         keys = rng.sample([(r, sk) for r in remotes for sk in (0, 1)], rng.choice([1, 2, 2, 3]))   # (remote, local socket)
         tp = {k: rng.random() < 0.7 for k in keys}
         qfmt = rng.choice(["native", "native", "qlink", "mixed"])      # how the link layer hands responses over
+        log = rng.random() < 0.5                                       # instruction logger attached or not
+
+        def qubit_ids(um, n):
+            """virtual qubit ids of a request: in range, and NOT ascending by construction (distinct ids in
+            descending / shuffled order where the unit module is large enough, repeats otherwise)"""
+            if n <= um and rng.random() < 0.75:
+                ids = rng.sample(range(um), n)
+                if n >= 2 and ids == sorted(ids):
+                    ids.reverse()
+                return ids
+            return [rng.randrange(um) for _ in range(n)]
+
         napps = rng.choice([1, 2, 2, 3])
         app_ids = rng.sample([0, 1, 2, 5], napps)
         ref = ei.FifoRef(node, pm)
@@ -179,11 +196,11 @@ class Gen:
                 um = len(ref.ums[app])
                 key = rng.choice(keys)
                 n = rng.choice([1, 2, 2, 3])
-                vs = [rng.randrange(um) for _ in range(n)] if tp[key] else []
+                vs = qubit_ids(um, n) if tp[key] else []
                 ev = ("CreateRefused", app, key, tp[key], vs, n, fresh_addr(), fresh_addr(), fresh_addr())
                 qarr, args, res = fresh_addr(), fresh_addr(), fresh_addr()
                 n2 = rng.choice([n, n, 1])
-                vs2 = [rng.randrange(um) for _ in range(n2)] if tp[key] else []
+                vs2 = qubit_ids(um, n2) if tp[key] else []
                 if rng.random() < 0.7:
                     forced = ("Create", app, key, tp[key], vs2, n2, qarr, args, res, waits(res, n2))
             elif r < 0.30 and len(alive) < 4:
@@ -191,7 +208,7 @@ class Gen:
                 um = len(ref.ums[app])
                 key = rng.choice(keys)
                 n = rng.choice([1, 1, 2, 2, 3])
-                vs = [rng.randrange(um) for _ in range(n)]
+                vs = qubit_ids(um, n)
                 if rng.random() < 0.5:
                     qarr, args, res = fresh_addr(), fresh_addr(), fresh_addr()
                     ev = ("Create", app, key, tp[key], vs if tp[key] else [], n, qarr, args, res, waits(res, n))
@@ -235,7 +252,8 @@ class Gen:
         self.stats[f"purpose-map:{pm}"] = self.stats.get(f"purpose-map:{pm}", 0) + 1
         if node != 0 and any(k[0] == 0 for k in keys):
             self.stats["remote-0-with-own-nonzero"] = self.stats.get("remote-0-with-own-nonzero", 0) + 1
-        return node, pm, evs, len(ref.consumed)
+        self.stats[f"instruction-logger:{'on' if log else 'off'}"] = self.stats.get(f"instruction-logger:{'on' if log else 'off'}", 0) + 1
+        return node, pm, log, evs, len(ref.consumed)
 
 
 def resp(key, creator, k, cid, q, pm="id", fmt="native"):
@@ -251,7 +269,7 @@ def small_scenarios(tier):
     sc = []
 
     def two_creates(A, pm, fmt="native"):
-        return ([("Create", 0, A, True, [0, 1], 2, 0, 1, 2, [("WAll", 2, 0, 20)]),
+        return ([("Create", 0, A, True, [1, 0], 2, 0, 1, 2, [("WAll", 2, 0, 20)]),
                  ("Create", 0, A, True, [2], 1, 3, 4, 5, [("WAll", 5, 0, 10)]),
                  resp(A, True, True, 1, 101, pm, fmt), resp(A, True, True, 2, 102, pm), resp(A, True, True, 3, 103, pm, fmt)]
                 + ([("Retry",)] if tier != "quick" else []))
@@ -262,39 +280,39 @@ def small_scenarios(tier):
                 resp(A, True, True, 1, 101, pm), resp(A, False, True, 2, 102, pm, fmt), ("Free", 0, 0), ("Retry",)]
 
     # two creates on one socket (2 + 1 pairs), their three responses, a retry
-    sc.append(("same-socket-two-creates", 0, "id", [("Init", 0, 3)], two_creates((1, 0), "id")))
+    sc.append(("same-socket-two-creates", 0, "id", True, [("Init", 0, 3)], two_creates((1, 0), "id")))
     # the stack refuses a create (put raises), the application re-issues it; two responses
     A = (1, 0)
-    sc.append(("refused-create-then-retry", 0, "id", [("Init", 0, 2)],
+    sc.append(("refused-create-then-retry", 0, "id", False, [("Init", 0, 2)],
                [("CreateRefused", 0, A, True, [0, 1], 2, 0, 1, 2),
-                ("Create", 0, A, True, [0, 1], 2, 3, 4, 5, [("WAll", 5, 0, 20)]),
+                ("Create", 0, A, True, [1, 0], 2, 3, 4, 5, [("WAll", 5, 0, 20)]),
                 resp(A, True, True, 1, 101), resp(A, True, True, 2, 102)]
                + ([("Recv", 0, A, [0], 1, 6, 7, [("WAll", 7, 0, 10)]), resp(A, False, True, 3, 103)] if tier != "quick" else [])))
     # create and receive roles mixed on one socket, colliding virtual qubit, a free --
     # as node 1 talking to node 0 over cross-connected sockets (purpose = remote side's socket id)
-    sc.append(("mixed-roles-colliding-qubit-remote0-swapped", 1, "swap", [("Init", 0, 2)], mixed((0, 0), "swap", "qlink")))
+    sc.append(("mixed-roles-colliding-qubit-remote0-swapped", 1, "swap", True, [("Init", 0, 2)], mixed((0, 0), "swap", "qlink")))
     # two applications: a response arrives early for a request application 1 has not issued yet,
     # application 0 is stopped, application 1 issues its measure-directly receive request;
     # responses in the qlink-interface 1.0 format
     B = (2, 1)
-    sc.append(("two-apps-early-response-stop-of-the-other", 0, "id", [("Init", 0, 1), ("Init", 1, 2)],
+    sc.append(("two-apps-early-response-stop-of-the-other", 0, "id", False, [("Init", 0, 1), ("Init", 1, 2)],
                [resp(B, False, False, 1, 1, "id", "qlink"), ("Stop", 0),
                 ("Recv", 1, B, None, 2, 0, 1, [("WAll", 1, 0, 20)]), resp(B, False, False, 2, 0, "id", "qlink"), ("Retry",)]
                + ([("Alloc", 1, 0)] if tier != "quick" else [])))
     if tier != "quick":
-        sc.append(("mixed-roles-colliding-qubit", 0, "id", [("Init", 0, 2)], mixed((1, 0), "id")))
-        sc.append(("same-socket-two-creates-remote0-offset", 2, ("off", 3), [("Init", 0, 3)],
+        sc.append(("mixed-roles-colliding-qubit", 0, "id", False, [("Init", 0, 2)], mixed((1, 0), "id")))
+        sc.append(("same-socket-two-creates-remote0-offset", 2, ("off", 3), False, [("Init", 0, 3)],
                    two_creates((0, 1), ("off", 3), "qlink")))
         A, B = (1, 0), (2, 1)
         # two sockets, keep and measure, three pairs on one request
-        sc.append(("two-sockets-K-and-M", 0, "id", [("Init", 0, 3)],
+        sc.append(("two-sockets-K-and-M", 0, "id", True, [("Init", 0, 3)],
                    [("Create", 0, A, False, [], 3, 0, 1, 2, [("WAny", 2, 0, 30), ("WAll", 2, 0, 30)]),
                     ("Recv", 0, B, [1], 1, 3, 4, [("WAll", 4, 0, 10)]),
                     resp(A, True, False, 1, 0), resp(A, True, False, 2, 1, "id", "qlink"), resp(A, True, False, 3, 0),
                     resp(B, False, True, 4, 104), ("Alloc", 0, 1)]))
         # three receive requests, one pair each, same socket, busy qubit in the middle; remote 0, swapped
         B = (0, 1)
-        sc.append(("three-requests-busy-middle-remote0-swapped", 3, "swap", [("Init", 0, 2)],
+        sc.append(("three-requests-busy-middle-remote0-swapped", 3, "swap", False, [("Init", 0, 2)],
                    [("Recv", 0, B, [0], 1, 0, 1, [("WAll", 1, 0, 10)]),
                     ("Recv", 0, B, [0], 1, 2, 3, [("WAll", 3, 0, 10)]),
                     ("Recv", 0, B, [1], 1, 4, 5, [("WSingle", 5, 2), ("WAll", 5, 0, 10)]),
@@ -302,7 +320,7 @@ def small_scenarios(tier):
                     resp(B, False, True, 3, 103, "swap"), ("Free", 0, 0)]))
         # two applications sharing one socket and role: requests of both in one FIFO, a third one stopped
         B = (2, 0)
-        sc.append(("two-apps-one-fifo-third-stopped", 1, "swap", [("Init", 0, 2), ("Init", 1, 2), ("Init", 2, 1)],
+        sc.append(("two-apps-one-fifo-third-stopped", 1, "swap", True, [("Init", 0, 2), ("Init", 1, 2), ("Init", 2, 1)],
                    [("Recv", 0, B, [0], 1, 0, 1, [("WAll", 1, 0, 10)]),
                     ("Recv", 1, B, [1], 1, 0, 1, [("WAll", 1, 0, 10)]),
                     resp(B, False, True, 1, 101, "swap"), resp(B, False, True, 2, 102, "swap", "qlink"),
@@ -310,14 +328,14 @@ def small_scenarios(tier):
     return sc
 
 
-def exhaustive(runner, name, node, pm, prefix, events, report):
+def exhaustive(runner, name, node, pm, log, prefix, events, report):
     """all orderings of the events (after the fixed prefix) as a prefix tree; orderings in which a
     Free / Alloc names a qubit that is not allocated / free yet are pruned at that event"""
     roots = []
     count = [0]
     prefix = list(prefix)
     parent0 = None
-    w0 = runner.world(node, pm)
+    w0 = runner.world(node, pm, log)
     for i, ev in enumerate(prefix):
         fault = w0.apply(ev)
         n = runner.node(prefix[:i + 1], ev, fault, w0.observe())
@@ -329,7 +347,7 @@ def exhaustive(runner, name, node, pm, prefix, events, report):
             if any(remaining[j] == ev for j in range(i)):
                 continue
             path = prefix + done + [ev]
-            w = runner.world(node, pm)
+            w = runner.world(node, pm, log)
             ref = ei.FifoRef(node, pm)
             ok = True
             for e in path[:-1]:
@@ -347,12 +365,12 @@ def exhaustive(runner, name, node, pm, prefix, events, report):
             n = runner.node(path, ev, fault, ob)
             runner.ctx.note_case(("exh", name, str(path)), nontrivial=len(path) >= 3)
             if fault >= 0:
-                report(node, path, f"event {ev[0]} raised (exception class {fault}) in a run that obeys the contract", pm)
+                report(node, path, f"event {ev[0]} raised (exception class {fault}) in a run that obeys the contract", pm, log)
                 ok = False
             else:
                 ref.apply(ev)
                 for b in ref.compare(ob):
-                    report(node, path, b, pm)
+                    report(node, path, b, pm, log)
                     ok = False
             (roots if parent is None else parent["kids"]).append(n)
             if ok:
@@ -368,12 +386,12 @@ def kind_of(text):
     return " ".join(re.sub(r"[^a-zA-Z ]+", " ", re.split(r"[\[\{:]", text)[0]).split())[:48]
 
 
-def shrink(runner, node, evs, text, pm="id"):
+def shrink(runner, node, evs, text, pm="id", log=False):
     kind = kind_of(text)
 
     def fails(cand):
         try:
-            _, fl, _ = runner.run(node, cand, want_tree=False, pm=pm)
+            _, fl, _ = runner.run(node, cand, want_tree=False, pm=pm, log=log)
         except Exception:
             return False
         return any(kind_of(b) == kind for _, b in fl)
@@ -405,6 +423,8 @@ def run(ctx):
                 "line) and the application re-issues them on the same socket; link-layer OK responses, as native tuples or as "
                 "qlink-interface 1.0 Res* objects, arriving before or after the matching instruction (also before ANOTHER "
                 "application's instruction, across a stop of a third one), retries of the pending list, "
+                "the controller runs with or without an instruction logger attached (a real InstrLogger, called after every "
+                "instruction with the live instruction object); qubit-id arrays of requests are not ascending by construction; "
                 "polls of waiting subroutines, qfree/qalloc that un-block / block deferred keep responses. Random sequences obey "
                 "the contract (response type = request type per socket; ids in range; an "
                 "application is stopped only when nothing of it is outstanding); "
@@ -427,13 +447,21 @@ def run(ctx):
                       "flushes and waits first); the model and the code fault when a response is handled for a stopped application")
     ctx.assume.append("registers are per application and shared by concurrent subroutines: the harness gives every live subroutine "
                       "its own pair of registers for wait bounds (wait_any / wait_single re-read them at every poll)")
+    ctx.assume.append("optional collaborators of the executor, found by introspection: Executor.__init__(name, instr_log_dir, **kwargs) -> the "
+                      "instruction logger (instr_logger_class, called in _execute_command with subroutine id, app id, the live command "
+                      "object, output, program counter; it reads arrays / registers / unit modules through the executor) is a "
+                      "configuration dimension of the streams (on/off); the network stack (put / setup_epr_socket / get_purpose_id) is "
+                      "the scripted stack (refusals, purpose maps); _reserve_physical_qubit / _clear_phys_qubit_in_memory receive ints; "
+                      "the python logging logger only receives pre-formatted strings. The logger is not part of the model: the "
+                      "bookkeeping must be the same with and without it. Contract-breaking streams run without logger (the "
+                      "logger itself raises on out-of-range virtual ids in `set Q0 v`)")
     ctx.assume.append("timing and ERR responses are not modelled; the response format (native / qlink-interface 1.0) is not part of "
                       "the model: both must lead to the same bookkeeping")
 
     violations = []
 
-    def report(node, evs, text, pm="id"):
-        violations.append((node, pm, list(evs), text))
+    def report(node, evs, text, pm="id", log=False):
+        violations.append((node, pm, log, list(evs), text))
 
     # ---- corpus
     n_corpus = 0
@@ -443,11 +471,12 @@ def run(ctx):
                 rec = json.load(open(os.path.join(CORPUS, f)))
                 evs = [ev_from_json(e) for e in rec["events"]]
                 pm = from_pm(rec.get("pm", "id"))
-                _, fl, _ = runner.run(rec["node"], evs, want_tree=False, pm=pm)
+                for lg in (False, True):
+                    _, fl, _ = runner.run(rec["node"], evs, want_tree=False, pm=pm, log=lg)
+                    for step, b in fl:
+                        report(rec["node"], evs[:step + 1], b, pm, lg)
                 n_corpus += 1
                 ctx.note_case(("corpus", f), True)
-                for step, b in fl:
-                    report(rec["node"], evs[:step + 1], b, pm)
     ctx.coverage["corpus_cases"] = n_corpus
 
     # ---- random interleavings
@@ -459,24 +488,24 @@ def run(ctx):
     lens = {}
     for _ in range(n_seq):
         length = ctx.rng.choice([6, 12, 20, 35, 50])
-        node, pm, evs, consumed = gen.scenario(length)
-        root, fl, faults = runner.run(node, evs, pm=pm)
+        node, pm, log, evs, consumed = gen.scenario(length)
+        root, fl, faults = runner.run(node, evs, pm=pm, log=log)
         groups.append((pm, node, [root]))
         lens[length] = lens.get(length, 0) + 1
         ctx.note_case(str(evs), nontrivial=consumed >= 1 and len(evs) >= 3)
         if len(ctx.samples) < 2 and consumed >= 2:
-            ctx.samples.append(dict(node=node, purpose_map=jsonable(pm), events=jsonable(evs[:10])))
+            ctx.samples.append(dict(node=node, purpose_map=jsonable(pm), instruction_logger=log, events=jsonable(evs[:10])))
         for step, b in fl:
-            report(node, evs[:step + 1], b, pm)
+            report(node, evs[:step + 1], b, pm, log)
     ctx.coverage["sequence_lengths"] = lens
     ctx.coverage["event_distribution"] = stats
 
     # ---- every ordering of small scenarios
     exh = {}
     big_groups = []
-    for name, node, pm, prefix, events in small_scenarios(ctx.tier):
-        roots, cnt = exhaustive(runner, name, node, pm, prefix, events, report)
-        exh[name] = dict(events=len(events), nodes=cnt, node=node, purpose_map=jsonable(pm))
+    for name, node, pm, log, prefix, events in small_scenarios(ctx.tier):
+        roots, cnt = exhaustive(runner, name, node, pm, log, prefix, events, report)
+        exh[name] = dict(events=len(events), nodes=cnt, node=node, purpose_map=jsonable(pm), instruction_logger=log)
         big_groups.append((pm, node, roots))
     ctx.coverage["every_ordering_scenarios"] = exh
     ctx.log(f"implementation runs done: {n_seq} random sequences, orderings {exh}, oracle failures {len(violations)}")
@@ -555,22 +584,23 @@ def run(ctx):
     if ctx.broken and not violations:
         ctx.log("searching for a failing event sequence")
         for _ in range(1200):
-            node, pm, evs, _ = gen.scenario(ctx.rng.choice([8, 15, 30]))
-            _, fl, _ = runner.run(node, evs, want_tree=False, pm=pm)
+            node, pm, log, evs, _ = gen.scenario(ctx.rng.choice([8, 15, 30]))
+            _, fl, _ = runner.run(node, evs, want_tree=False, pm=pm, log=log)
             if fl:
-                report(node, evs[:fl[0][0] + 1], fl[0][1], pm)
+                report(node, evs[:fl[0][0] + 1], fl[0][1], pm, log)
                 break
 
     seen = set()
-    for node, pm, evs, text in violations:
+    for node, pm, log, evs, text in violations:
         k = kind_of(text)
         if k in seen:
             continue
         seen.add(k)
-        small = shrink(runner, node, evs, text, pm)
-        _, fl, faults = runner.run(node, small, want_tree=False, pm=pm)
+        small = shrink(runner, node, evs, text, pm, log)
+        _, fl, faults = runner.run(node, small, want_tree=False, pm=pm, log=log)
         ctx.violation(text if not fl else fl[-1][1],
-                      dict(node=node, pm=jsonable(pm), events=jsonable(small), failures=[b for _, b in fl]), key=None)
+                      dict(node=node, pm=jsonable(pm), instruction_logger=log, events=jsonable(small),
+                           failures=[b for _, b in fl]), key=None)
     ctx.coverage["oracle_failures_total"] = len(violations)
     ctx.finish()
 
@@ -585,11 +615,12 @@ def replay(ctx, path):
         events = upgrade(events, rec["um"])
     evs = [ev_from_json(e) for e in events]
     pm = from_pm(rec.get("pm") or "id")
-    _, fl, faults = runner.run(rec["node"], evs, want_tree=False, pm=pm)
-    print("replay: faults", faults)
+    log = bool(rec.get("instruction_logger", False))
+    _, fl, faults = runner.run(rec["node"], evs, want_tree=False, pm=pm, log=log)
+    print("replay: faults", faults, "instruction logger", log)
     for step, b in fl:
         print(f"  step {step} {evs[step][0]}: {b}")
     if fl:
-        ctx.violation(fl[-1][1], dict(node=rec["node"], pm=jsonable(pm), events=jsonable(evs),
+        ctx.violation(fl[-1][1], dict(node=rec["node"], pm=jsonable(pm), instruction_logger=log, events=jsonable(evs),
                                       failures=[b for _, b in fl]), key=key)
     ctx.finish()
